@@ -1,5 +1,7 @@
 import Mdsort.Proofs.World
 import Mdsort.Proofs.WorldSingleEx
+import Mdsort.Proofs.WorldWholeEx
+import Mdsort.Proofs.WorldWholeExit
 
 /-!
 # C01 - no message is lost or duplicated when an I/O operation fails
@@ -161,5 +163,188 @@ example :
 example : Proofs.World.ignoredSite (.renameat 3 [49] 5 [50]) = false ∧ Proofs.World.handledErr (.renameat 3 [49] 5 [50]) "EIO" = false ∧
     Proofs.World.ignoredSite (.close 6) = true ∧ Proofs.World.handledErr (.renameat 3 [49] 5 [50]) "EXDEV" = true := by
   decide
+
+/-! ## the whole run: `processMessage`, `walk`, `mainP` under EVERY fault plan
+
+The theorems above are about ONE action list started in a `Start` world.  The following lift them
+through the main loop (Proofs/WorldWhole*.lean).
+
+* `Proofs.WholeReg w files`: the registry `files` of the main loop (directory, name -> content; the
+  parameter of `mainP`) is consistent with the world: every registered message is bound under its
+  name to a file (id below `nextFid`) whose visible and durable content is the registered content
+  (decidable form: `Proofs.wholeRegOk`, `C01_registry_check`).
+* `Proofs.WholeNoDiscard env orc expr`: the rules never produce a discard action
+  (`C01_noDiscard_of_syntax`: true of every rule tree that contains no `discard`).  Discard is
+  excluded over the whole configuration; lists that end in a discard are treated, per message and for
+  at most one fault, by `C01_single_fault_discard`.
+* `Proofs.wholeRewrite env orc expr dir name c`: what `message_write` renders for the file `name` of
+  `dir` with content `c` once the actions of `expr` (label, add-header) have been interpolated - `c`
+  itself when the rules do not act; `Proofs.WholeVersion env orc exprs c c'`: `c'` is `c` after zero or
+  more such complete rewrites by rules of `exprs` (a message that is moved into a maildir walked
+  later is processed again).
+* The model-internal registry stays consistent with the world under EVERY fault plan (it is updated
+  from the ghost location, which the proof shows to be exact); entries the world has and the registry
+  has not (a stray copy after a failed roll-back) only set `error` (`processMessage_unknown`). -/
+
+/-- **start_of_parse.**  From a world whose handles cannot be written through (`Proofs.WholeClean`)
+and in which `(md.path, name)` is bound to a file that holds `content` visibly and durably: whatever
+fails while `message_parse` runs, if it returns a message then the world after it, together with
+the state `processMessage` hands to `matches_exec` (for any interpolated message and flag set),
+satisfies `StartAt` and `Start` with `orig = content`. -/
+theorem C01_start_of_parse (md : Maildir) (d : Handle) (name content : Bytes) (w : World) (fid : Nat) (plan : Plan)
+    (hd : md.dirH = some d) (hp : w.dirPath d = some md.path)
+    (hwf : pathjoin PATH_MAX md.root (subdirName md.subdir) = some md.path)
+    (hl : w.lookup md.path name = some fid) (hf : w.file fid = some ⟨content, content⟩) (hc : Proofs.WholeClean w)
+    (ms : MsgSt) (hr : (runPlan plan (messageParseP d md.path name content) w 0 []).1 = some ms) (m : Msg) (fl : MFlags) :
+    Proofs.StartAt (runPlan plan (messageParseP d md.path name content) w 0 []).2.1
+      { src := md, chsrc := false, ms := { ms with msg := m, flags := fl }, reject := false } content ∧
+    Proofs.Start (runPlan plan (messageParseP d md.path name content) w 0 []).2.1
+      { src := md, chsrc := false, ms := { ms with msg := m, flags := fl }, reject := false } content :=
+  ⟨Proofs.whole_start_of_parse md d name content w fid plan 0 [] hd hp hwf hl hf hc ms hr m fl,
+   (Proofs.whole_start_of_parse md d name content w fid plan 0 [] hd hp hwf hl hf hc ms hr m fl).start⟩
+
+/-- **One message.**  `processMessage` under EVERY fault plan, started in a world where the
+message's entry is bound to a complete file: after every call some entry is bound to a file whose
+visible content is the message or its complete rewrite, and every OTHER entry that existed is bound
+to the same file, with the same content. -/
+theorem C01_message_no_loss (env : PEnv) (orc : EvalOracles) (expr : Expr) (md : Maildir) (name : Bytes) (st : MainSt)
+    (w : World) (plan : Plan) (d : Handle) (content : Bytes) (fid : Nat)
+    (hd : md.dirH = some d) (hp : w.dirPath d = some md.path)
+    (hwf : pathjoin PATH_MAX md.root (subdirName md.subdir) = some md.path)
+    (hfc : st.files.get md.path name = some content)
+    (hl : w.lookup md.path name = some fid) (hlt : fid < w.nextFid) (hf : w.file fid = some ⟨content, content⟩)
+    (hnd : Proofs.WholeNoDiscard env orc expr) :
+    ∀ w' ∈ (runPlan plan (processMessage env orc expr md name st) w 0 []).2.2,
+      Proofs.Intact w' [content, Proofs.wholeRewrite env orc expr md.path name content] ∧
+      ∀ q m g, (q, m) ≠ (md.path, name) → w.lookup q m = some g →
+        w'.lookup q m = some g ∧ (g < w.nextFid → w'.file g = w.file g) := fun w' hw' =>
+  ⟨(Proofs.whole_message_no_loss env orc expr md name st w plan hd hp hwf hfc hl hlt hf hnd w' hw').1,
+   (Proofs.whole_message_no_loss env orc expr md name st w plan hd hp hwf hfc hl hlt hf hnd w' hw').2.2⟩
+
+/-- **One maildir.**  `walk` under EVERY fault plan, from a world with which the registry is
+consistent and in which the maildir's handle is open on its path (`Proofs.WholeMdOk`): after EVERY
+call every registered message has an entry bound to a file whose visible content is a complete
+version of it. -/
+theorem C01_walk_no_loss (env : PEnv) (orc : EvalOracles) (expr : Expr) (fuel : Nat) (md : Maildir) (st : MainSt)
+    (w : World) (plan : Plan) (hnd : Proofs.WholeNoDiscard env orc expr) (hreg : Proofs.WholeReg w st.files)
+    (hmd : Proofs.WholeMdOk w md) :
+    ∀ w' ∈ (runPlan plan (walk env orc expr fuel md st) w 0 []).2.2,
+      ∀ dir name c, st.files.get dir name = some c →
+        ∃ d n fid f, w'.lookup d n = some fid ∧ w'.file fid = some f ∧ Proofs.WholeVersion env orc [expr] c f.data := by
+  intro w' hw' dir name c hc
+  obtain ⟨d, n, fid, f, h1, _, h3, h4, _⟩ := Proofs.whole_walk_no_loss env orc expr fuel md st w plan hnd hreg hmd w' hw' dir name c hc
+  exact ⟨d, n, fid, f, h1, h3, h4⟩
+
+/-- **A whole run** in maildir mode (`-` not given), any configuration without discard, any
+population: under EVERY fault plan, after EVERY call, every message of the registry (= every message
+that was in a configured maildir initially, when the registry lists them) has an entry bound to a
+file whose visible content is a complete version of it. -/
+theorem C01_main_no_loss (env : PEnv) (orc : EvalOracles) (confOk : Bool) (conf : List ConfBlock) (files : Files) (input : Bytes)
+    (w : World) (plan : Plan) (hm : env.stdinMode = false) (hnd : ∀ b ∈ conf, Proofs.WholeNoDiscard env orc b.expr)
+    (hreg : Proofs.WholeReg w files) :
+    ∀ w' ∈ (runPlan plan (mainP env orc confOk conf files input) w 0 []).2.2,
+      ∀ dir name c, files.get dir name = some c →
+        ∃ d n fid f, w'.lookup d n = some fid ∧ w'.file fid = some f ∧
+          Proofs.WholeVersion env orc (conf.map (·.expr)) c f.data := by
+  intro w' hw' dir name c hc
+  obtain ⟨d, n, fid, f, h1, _, h3, h4, _⟩ :=
+    Proofs.whole_main_no_loss env orc confOk conf files input w plan hm hnd hreg w' hw' dir name c hc
+  exact ⟨d, n, fid, f, h1, h3, h4⟩
+
+/-- The restriction on the rules, decidably: a rule tree that contains no `discard` never discards. -/
+theorem C01_noDiscard_of_syntax (env : PEnv) (orc : EvalOracles) (expr : Expr) (h : Proofs.wholeHasDiscard expr = false) :
+    Proofs.WholeNoDiscard env orc expr :=
+  Proofs.whole_noDiscard_of_syntax env orc expr h
+
+/-- The consistency of the registry with the world, decidably. -/
+theorem C01_registry_check (w : World) (files : Files) (h : Proofs.wholeRegOk w files = true) : Proofs.WholeReg w files :=
+  Proofs.whole_reg_of_ok h
+
+/-! Non-vacuity on a two-message world (Proofs/WorldWholeEx.lean): `/m/new/1.h` = `A: b\n\nx`,
+`/m/new/2.h` = `A: c\n\ny`, configuration `maildir "/m" { match all flag "cur" label "x" }`. -/
+
+/-- `C01_main_no_loss`: maildir mode, no discard, the registry is consistent with the world. -/
+example : Proofs.exEnv.stdinMode = false ∧
+    (∀ b ∈ Proofs.wholeExConf, Proofs.WholeNoDiscard Proofs.exEnv Proofs.wholeExOrc b.expr) ∧
+    Proofs.WholeReg Proofs.wholeExWorld Proofs.wholeExFiles ∧ Proofs.wholeExFiles.length = 2 :=
+  ⟨rfl, Proofs.wholeEx_nd, Proofs.wholeEx_reg, rfl⟩
+
+/-- `C01_walk_no_loss`: `/m/new` open at handle 3. -/
+example : Proofs.WholeNoDiscard Proofs.exEnv Proofs.wholeExOrc Proofs.wholeExExpr ∧
+    Proofs.WholeReg Proofs.wholeExWorldW Proofs.wholeExSt.files ∧ Proofs.WholeMdOk Proofs.wholeExWorldW Proofs.exMd :=
+  ⟨Proofs.whole_noDiscard_of_syntax _ _ _ (by decide), Proofs.wholeEx_regW, Proofs.wholeEx_mdOk⟩
+
+/-- `C01_message_no_loss` and `C01_start_of_parse`: the first message, bound to file 0. -/
+example : Proofs.exMd.dirH = some 3 ∧ Proofs.wholeExWorldW.dirPath 3 = some Proofs.exMd.path ∧
+    pathjoin PATH_MAX Proofs.exMd.root (subdirName Proofs.exMd.subdir) = some Proofs.exMd.path ∧
+    Proofs.wholeExSt.files.get Proofs.exMd.path Proofs.exName = some Proofs.exOrig ∧
+    Proofs.wholeExWorldW.lookup Proofs.exMd.path Proofs.exName = some 0 ∧ 0 < Proofs.wholeExWorldW.nextFid ∧
+    Proofs.wholeExWorldW.file 0 = some ⟨Proofs.exOrig, Proofs.exOrig⟩ ∧ Proofs.WholeClean Proofs.wholeExWorldW :=
+  ⟨rfl, by decide, by decide, by decide, by decide, by decide, by decide, Proofs.wholeEx_clean⟩
+
+/-- The parse of the first message succeeds when nothing fails (the hypothesis `hr` of `C01_start_of_parse`). -/
+example : ((runPlan Plan.none (messageParseP 3 Proofs.exMd.path Proofs.exName Proofs.exOrig) Proofs.wholeExWorldW 0 []).1).isSome = true := by
+  decide +kernel
+
+/-- **No error bit means final place** (at most one fault), one message through `processMessage`
+(parse, execution, `message_free`, registry update): if the rules act on a registered, completely
+stored message (list `ml` without discard, not a dry run) and the state `processMessage` returns does
+not have the error flag, then (`Proofs.WholeFinalPlace`) the registry and the world have the message
+in the directory of the last move/flag/flags action, under its own or a formerly free name, bound to a
+file that holds the rewritten message if `ml` contains a label or add-header (in any case the
+original or the rewritten bytes); the original entry is free unless it is the final one; every other
+entry of every directory is bound as before.
+
+With `C04_error_iff_partial` (exit status 0 iff no cause of the error flag occurred, in particular no
+message's error bit) this is `C01_main_exit0` message by message: "final place" is a notion of one
+processing step - a message moved into a maildir that is walked later is processed again - so the
+statement is made per step and not once for the run. -/
+theorem C01_message_exit0 (env : PEnv) (orc : EvalOracles) (expr : Expr) (md : Maildir) (name : Bytes) (st : MainSt)
+    (w : World) (plan : Plan) (d : Handle) (content : Bytes) (fid : Nat) (ml : MatchList) (msgs : Nat → Msg) (fl : MFlags)
+    (hd : md.dirH = some d) (hp : w.dirPath d = some md.path)
+    (hwf : pathjoin PATH_MAX md.root (subdirName md.subdir) = some md.path)
+    (hfc : st.files.get md.path name = some content)
+    (hl : w.lookup md.path name = some fid) (hf : w.file fid = some ⟨content, content⟩) (hc : Proofs.WholeClean w)
+    (hvd : Proofs.verdict env orc expr md.path name content = .act ml msgs fl) (hml : Proofs.NoDiscard ml)
+    (hdry : env.dryrun = false) (hpl : Proofs.World.SingleFault plan)
+    (he : (runPlan plan (processMessage env orc expr md name st) w 0 []).1.1.error = false) :
+    Proofs.WholeFinalPlace w md name content ml (msgs 0) (runPlan plan (processMessage env orc expr md name st) w 0 []).1
+      (runPlan plan (processMessage env orc expr md name st) w 0 []).2.1 :=
+  Proofs.whole_message_exit0 env orc expr md name st w plan hd hp hwf hfc hl hf hc hvd hml hdry hpl he
+
+/-- Non-vacuity: the rules of the example act on its first message, without discard; not a dry run;
+the plan that fails call 5 with `EIO` has at most one fault. -/
+example : (∃ ml msgs fl, Proofs.verdict Proofs.exEnv Proofs.wholeExOrc Proofs.wholeExExpr Proofs.exMd.path Proofs.exName Proofs.exOrig =
+      .act ml msgs fl ∧ Proofs.NoDiscard ml) ∧
+    Proofs.exEnv.dryrun = false ∧ Proofs.World.SingleFault (Proofs.World.singlePlan 5 (.fail "EIO")) := by
+  refine ⟨?_, rfl, Proofs.World.singleFault_single _ _⟩
+  have hacts : (Proofs.verdict Proofs.exEnv Proofs.wholeExOrc Proofs.wholeExExpr Proofs.exMd.path Proofs.exName Proofs.exOrig).acts = true := by
+    unfold Proofs.verdict Proofs.msVerdict Proofs.wholeExExpr
+    simp only [eval]
+    decide +kernel
+  cases h : Proofs.verdict Proofs.exEnv Proofs.wholeExOrc Proofs.wholeExExpr Proofs.exMd.path Proofs.exName Proofs.exOrig with
+  | act ml msgs fl =>
+    exact ⟨ml, msgs, fl, rfl, Proofs.whole_noDiscard_of_syntax _ _ _ (by decide) _ _ _ _ _ _ h⟩
+  | unparsable => rw [h] at hacts; cases hacts
+  | «nomatch» => rw [h] at hacts; cases hacts
+  | error => rw [h] at hacts; cases hacts
+  | interpFail => rw [h] at hacts; cases hacts
+
+/-- Why "exactly once" / "no stray" / "final place" are single-fault statements while loss-freedom is
+not: with TWO faults - `match all flag "cur"` on the first message of the example, the `renameat`
+(call 6) and the roll-back `unlinkat` of the placeholder (call 7) both failing with `EIO` - the run sets
+the error flag, the message is intact under its original name (file 0, still in the registry), and
+`/m/cur` holds one entry: the EMPTY placeholder (file 2).  The model has no content for that name - a
+later walk that meets it only sets `error` - whereas the C program would parse the empty file as a
+message.  (With `label`, calls 13 and 14 failing leave a complete labelled duplicate the same way.) -/
+example :
+    let r := runPlan (fun k => if k = 6 ∨ k = 7 then some (.fail "EIO") else none)
+      (processMessage Proofs.exEnv Proofs.wholeExOrc (.mtch 1 (.all 1) (.flag 1 [99, 117, 114])) Proofs.exMd Proofs.exName
+        Proofs.wholeExSt) Proofs.wholeExWorldW 0 []
+    r.1.1.error = true ∧ r.2.1.lookup Proofs.exNew Proofs.exName = some 0 ∧
+      r.1.1.files.get Proofs.exNew Proofs.exName = some Proofs.exOrig ∧
+      (r.2.1.dir Proofs.exCur).map (·.map (·.2)) = some [2] ∧ r.2.1.file 2 = some ⟨[], []⟩ := by
+  simp only [processMessage, eval]
+  decide +kernel
 
 end Mdsort.Props
